@@ -47,11 +47,26 @@ impl<'a> Cx<'a> {
                 h.set_input_offset(1024 * (1 + rng.below(1 << 20)));
             }
             h.set_input_offset(off as u64);
+            if rng.chance(1, 5) {
+                // a working copy restored in place from a template that points at this subtree,
+                // after it was used for something else somewhere else
+                let template = h.clone();
+                let mut work = self.hasher();
+                work.set_input_offset(1024 * (1 + rng.below(1 << 30)));
+                let k = rng.usize_below(3000);
+                work.update(&self.data[..k.min(self.data.len()).min(1024)]);
+                work.clone_from(&template);
+                h = work;
+            }
             let mut fed = 0;
             while fed < len {
                 let n = if rng.chance(1, 3) { len - fed } else { gen::hostile_len(rng, len - fed) };
                 h.update(&self.data[off + fed..off + fed + n]);
                 fed += n;
+            }
+            if rng.chance(1, 3) {
+                // the read-loop idiom: one more update with the empty slice after the last bytes
+                h.update(&[]);
             }
             h.finalize_non_root()
         }
@@ -191,6 +206,9 @@ fn offset_case(args: &Args, idx: u64, p: P, rng: &mut Rng, rep: &mut Report) {
             let n = if rng.chance(1, 2) { len - fed } else { gen::hostile_len(rng, len - fed) };
             h.update(&data[fed..fed + n]);
             fed += n;
+        }
+        if rng.chance(1, 3) {
+            h.update(&[]);
         }
         (h.finalize_non_root(), h.count())
     });
